@@ -344,3 +344,74 @@ Proof. reflexivity. Qed.
 
 Example lex_ex_cr_error : lex_string [c_dq; c_cr; 98; c_dq] = LexErr EGeneric.
 Proof. reflexivity. Qed.
+
+(* ---------------------------------------------------------------- the fuel of lex_string is enough *)
+
+Lemma span_length p l : let '(a, b) := span p l in List.length l = (List.length a + List.length b)%nat.
+Proof.
+  pose proof (span_eq p l) as H. destruct (span p l) as [a b]. rewrite H at 1. apply app_length.
+Qed.
+
+Lemma lit_token_shorter run rest t r :
+  lit_token run rest = Tk t r -> r = rest.
+Proof. unfold lit_token. destruct (has_cr (normalize_line_endings run)); intro H; inversion H. reflexivity. Qed.
+
+(* every token consumes at least one character *)
+Lemma next_tok_consumes inp t rest : next_tok inp = Tk t rest -> (List.length rest < List.length inp)%nat.
+Proof.
+  destruct inp as [|c tl]; [discriminate|]. unfold next_tok.
+  destruct (c =? c_dq) eqn:Hdq.
+  { intro H. inversion H. subst. cbn. lia. }
+  destruct (c =? c_pct) eqn:Hp.
+  { destruct tl as [|d tl']; [intro H; inversion H; subst; cbn; lia|].
+    destruct (d =? c_lb); intro H; inversion H; subst; cbn; lia. }
+  destruct (c =? c_bs) eqn:Hb.
+  { destruct tl as [|d tl']; [discriminate|].
+    assert (Hplain : forall r, (if d =? c_nl then TkErr EGeneric
+                                else match escape_char d with Some e => Tk (TEsc e) tl' | None => TkErr EInvalidEscape end) = Tk t r ->
+                               (List.length r < List.length (c :: d :: tl'))%nat).
+    { intros r. destruct (d =? c_nl); [discriminate|]. destruct (escape_char d); [|discriminate].
+      intro H. inversion H. subst. cbn. lia. }
+    destruct (d =? c_x).
+    - destruct tl' as [|h1 [|h2 tl'']]; try (apply Hplain).
+      destruct (is_hex h1 && is_hex h2); [|apply Hplain].
+      destruct (127 <? 16 * hex_val h1 + hex_val h2); [discriminate|].
+      intro H. inversion H. subst. cbn. lia.
+    - apply Hplain. }
+  (* a literal run *)
+  pose proof (span_length in_lit (c :: tl)) as Hl.
+  assert (Hc : in_lit c = true) by (unfold in_lit; rewrite Hdq, Hp, Hb; reflexivity).
+  destruct (span in_lit (c :: tl)) as [run r] eqn:Hs.
+  assert (Hrun : (1 <= List.length run)%nat).
+  { cbn [span] in Hs. rewrite Hc in Hs. destruct (span in_lit tl). inversion Hs. cbn. lia. }
+  assert (Hgen : forall r', lit_token run r = Tk t r' -> (List.length r' < List.length (c :: tl))%nat).
+  { intros r' H. apply lit_token_shorter in H. subst r'. lia. }
+  destruct (c =? c_cr).
+  - destruct tl as [|d tl']; [apply Hgen|].
+    destruct (negb (d =? c_nl) && (N.of_nat (List.length run) <=? 2)); [discriminate | apply Hgen].
+  - apply Hgen.
+Qed.
+
+Lemma lex_loop_no_fuel_error : forall fuel inp acc, (List.length inp < fuel)%nat -> lex_loop fuel inp acc <> LexErr EFuel.
+Proof.
+  induction fuel as [|f IH]; intros inp acc Hf; [lia|].
+  cbn [lex_loop]. destruct (next_tok inp) as [|t rest|e] eqn:Hn.
+  - discriminate.
+  - pose proof (next_tok_consumes inp t rest Hn) as Hlt.
+    destruct t; try discriminate; apply IH; lia.
+  - destruct inp as [|c tl]; [discriminate|]. intro H. inversion H. subst e.
+    (* next_tok never produces EFuel *)
+    unfold next_tok in Hn.
+    repeat match type of Hn with
+           | context [match ?x with _ => _ end] => destruct x eqn:?; try discriminate
+           end; unfold lit_token in *;
+    repeat match goal with
+           | H : context [match ?x with _ => _ end] |- _ => destruct x eqn:?; try discriminate
+           end.
+Qed.
+
+Theorem lex_string_fuel_enough : forall inp, lex_string inp <> LexErr EFuel.
+Proof.
+  intro inp. unfold lex_string. destruct inp as [|c t]; [discriminate|].
+  destruct (c =? c_dq); [|discriminate]. apply lex_loop_no_fuel_error. lia.
+Qed.
